@@ -96,7 +96,11 @@ interpolated into rich markup). The model is a model of the repaired tree.
   flat arithmetic of any length over all fourteen operators is scanned into its tokens (one `Steps` lemma per kind of token, for the
   scanner standing anywhere in the text; `/` vs `//`, `<` vs `<=` decided at the next character) and `Tokenizer.tokenize` of it is the
   evaluation of the reference precedence parse — scanner, tree builder (`C04_build`) and evaluator composed end to end; `lex_flatB`
-  (Lemmas/LexFlatB.lean): blanks of any kind and number before, between and after those tokens change nothing (spacing).
+  (Lemmas/LexFlatB.lean): blanks of any kind and number before, between and after those tokens change nothing (spacing); `lex_expr` /
+  `C04_expr_value` (Lemmas/LexAtoms.lean, LexExpr.lean): the same for flat expressions over EVERY kind of leaf value — numbers, variable
+  names among any set of names in scope, TRUE/FALSE, string literals — each leaf by an `Atom` lemma pair (closed by a delimiter / by
+  the end of the text), so that only parenthesised groups, `!( )`, signed/decimal literals and T/F-names inside compound
+  expressions remain outside the scanner theorems.
 * **Tighter tie for the scanner** (session 3): the correspondence now also compares the scanner's TOKEN LIST
   (`Tokenizer.__convert_string`: classes, operator texts, leaf values, inner texts and `!` flags of groups) with the model's `lex` —
   the very function `lex_digits`, `lex_name`, `lex_flat`, `lex_flatB` are about — on structured expressions in random layouts and on
